@@ -17,11 +17,23 @@
 (*   empty  : an empty line that states a sequent is refused                                 *)
 (*   extng  : checked_extend checks the proof with no_gaps                                   *)
 (*   extcmp : checked_extend compares the proof's conclusion with the stated theorem         *)
+(*   argsig : a primitive rule is handed seq.args only if its signature takes an argument,   *)
+(*            and an argument of another kind is refused (as coded before: args, when not    *)
+(*            None, is simply put in front of the cited sequents, so a made-up Thm object     *)
+(*            serves as first premise of a rule that takes none)                             *)
+(*   posocc : the identifier is compared with the position of EACH occurrence being checked  *)
+(*            (as coded before: find_item(seq.id) IS seq, an object identity that an item     *)
+(*            object placed at two positions satisfies at both)                              *)
 (* All FALSE = the algorithm of the pinned commit.                                           *)
+(* Objects: the item at a position with alias # <<>> is the same Python object as the item   *)
+(* at position alias; sequents assigned in place live on the OBJECT (ths is keyed by it).     *)
 EXTENDS C02_Ref
 
-Unfixed == [idpos |-> FALSE, negidx |-> FALSE, empty |-> FALSE, extng |-> FALSE, extcmp |-> FALSE]
-Repaired == [idpos |-> TRUE, negidx |-> TRUE, empty |-> TRUE, extng |-> TRUE, extcmp |-> TRUE]
+Unfixed == [idpos |-> FALSE, negidx |-> FALSE, empty |-> FALSE, extng |-> FALSE, extcmp |-> FALSE, argsig |-> FALSE, posocc |-> FALSE]
+Repaired == [idpos |-> TRUE, negidx |-> TRUE, empty |-> TRUE, extng |-> TRUE, extcmp |-> TRUE, argsig |-> TRUE, posocc |-> TRUE]
+\* the object sitting at a position
+Obj(prf, pos) == LET a == ItemAt(prf, pos).alias IN IF a = <<>> THEN pos ELSE a
+ObjAt(prf, q) == IF q = ErrPos THEN ErrPos ELSE Obj(prf, q)
 
 \* ItemID.can_depend_on
 CanDependOn(a, b) == LET n == Len(b) IN
@@ -41,33 +53,45 @@ Conclude(st, pos, res) ==
   ELSE IF IsNone(st.ths[pos]) THEN St(TRUE, [st.ths EXCEPT ![pos] = res], st.gaps)
   ELSE IF CanProve(res, st.ths[pos]) THEN st ELSE Bad(st)
 
+\* what rule_fun(...) receives as premises, as coded:  rule_fun(*prev_ths) if args is None else rule_fun(args, *prev_ths)
+\* [ok, prems]; a kind that cannot stand where Python puts it ends in some exception = refusal
+CallPrems(it, pths, fx) ==
+  LET sig == Sig(it.rule) IN
+  IF it.rule \in ArgIgnored \/ it.ak = sig THEN [ok |-> TRUE, prems |-> pths]
+  ELSE IF ~fx.argsig /\ sig = "none" /\ it.ak = "thm" THEN [ok |-> TRUE, prems |-> <<it.at>> \o pths]
+  ELSE [ok |-> FALSE, prems |-> pths]
+
 RECURSIVE ImplSeq(_, _, _, _, _, _, _)
 ImplItem(prf, it, pos, st, o, fx) ==
+  LET me == Obj(prf, pos) IN
   IF ~st.ok THEN st
-  ELSE IF it.rule = "" THEN (IF fx.empty /\ ~IsNone(it.th) THEN Bad(st) ELSE st)
-  ELSE IF fx.idpos /\ FindPos(prf, it.id, ~fx.negidx) # pos THEN Bad(st)
+  ELSE IF it.rule = "" THEN (IF fx.empty /\ ~IsNone(st.ths[me]) THEN Bad(st) ELSE st)
+  ELSE IF fx.posocc /\ it.id # pos THEN Bad(st)
+  ELSE IF ~fx.posocc /\ fx.idpos /\ ObjAt(prf, FindPos(prf, it.id, ~fx.negidx)) # me THEN Bad(st)
   ELSE IF it.rule = "sorry" THEN
-       IF IsNone(it.th) \/ o.nogaps THEN Bad(st) ELSE St(TRUE, st.ths, Append(st.gaps, it.th))
-  ELSE IF o.co /\ ~IsNone(st.ths[pos]) THEN
+       IF IsNone(st.ths[me]) \/ o.nogaps THEN Bad(st) ELSE St(TRUE, st.ths, Append(st.gaps, st.ths[me]))
+  ELSE IF o.co /\ ~IsNone(st.ths[me]) THEN
        (IF it.rule = "subproof" THEN ImplSeq(prf, it.sub, pos, 1, st, o, fx) ELSE st)
   ELSE IF it.rule = "theorem" THEN
-       LET outs == Apply("theorem", it.arg, <<>>) IN
-       Conclude(st, pos, IF outs = {} THEN ErrS ELSE CHOOSE x \in outs : TRUE)
+       LET outs == IF it.ak = "name" THEN Apply("theorem", it.arg, <<>>) ELSE {} IN
+       Conclude(st, me, IF outs = {} THEN ErrS ELSE CHOOSE x \in outs : TRUE)
   ELSE IF it.rule = "subproof" THEN
        IF Len(it.sub) = 0 THEN Bad(st)
        ELSE LET s1 == ImplSeq(prf, it.sub, pos, 1, st, o, fx) IN
-            Conclude(s1, pos, s1.ths[Append(pos, Len(it.sub) - 1)])
+            Conclude(s1, me, s1.ths[Obj(prf, Append(pos, Len(it.sub) - 1))])
   ELSE \* primitive derivation or macro: fetch the cited sequents
        LET n == Len(it.prevs)
-           ps == [k \in 1..n |-> FindPos(prf, it.prevs[k], ~fx.negidx)] IN
+           ps == [k \in 1..n |-> ObjAt(prf, FindPos(prf, it.prevs[k], ~fx.negidx))] IN
        IF \E k \in 1..n : ~CanDependOn(it.id, it.prevs[k]) \/ ps[k] = ErrPos THEN Bad(st)
        ELSE LET pths == [k \in 1..n |-> st.ths[ps[k]]] IN
             IF \E k \in 1..n : IsNone(pths[k]) THEN Bad(st)
             ELSE IF it.rule = "verif_gap1" THEN         \* level 1 > check_level 0: expanded; the expansion is `sorry |- arg`
-                 IF n # 0 \/ o.nogaps THEN Bad(st)
-                 ELSE Conclude(St(TRUE, st.ths, Append(st.gaps, Sq({}, it.arg))), pos, Sq({}, it.arg))
-            ELSE LET outs == Apply(it.rule, it.arg, pths) IN
-                 Conclude(st, pos, IF outs = {} THEN ErrS ELSE CHOOSE x \in outs : TRUE)
+                 IF n # 0 \/ o.nogaps \/ it.ak # "term" THEN Bad(st)
+                 ELSE Conclude(St(TRUE, st.ths, Append(st.gaps, Sq({}, it.arg))), me, Sq({}, it.arg))
+            ELSE LET cp == CallPrems(it, pths, fx) IN
+                 IF ~cp.ok \/ it.rule \in Unmodelled THEN Bad(st)
+                 ELSE LET outs == Apply(it.rule, it.arg, cp.prems) IN
+                      Conclude(st, me, IF outs = {} THEN ErrS ELSE CHOOSE x \in outs : TRUE)
 ImplSeq(prf, items, prefix, k, st, o, fx) ==
   IF k > Len(items) THEN st
   ELSE ImplSeq(prf, items, prefix, k + 1, ImplItem(prf, items[k], Append(prefix, k - 1), st, o, fx), o, fx)
@@ -77,7 +101,7 @@ Opts(nogaps, co) == [nogaps |-> nogaps, co |-> co]
 ImplCheck(prf, o, fx) ==
   IF Len(prf) = 0 THEN [acc |-> FALSE, final |-> NoneS, gaps |-> <<>>]          \* prf.items[-1]: IndexError
   ELSE LET st == ImplSeq(prf, prf, <<>>, 1, St(TRUE, [p \in AllPos(prf) |-> ItemAt(prf, p).th], <<>>), o, fx) IN
-       [acc |-> st.ok, final |-> IF st.ok THEN st.ths[<<Len(prf) - 1>>] ELSE NoneS, gaps |-> st.gaps]
+       [acc |-> st.ok, final |-> IF st.ok THEN st.ths[Obj(prf, <<Len(prf) - 1>>)] ELSE NoneS, gaps |-> st.gaps]
 \* checked_extend on Theorem(name, stated, prf): is the theorem installed?
 ImplExtend(stated, prf, fx) ==
   LET r == ImplCheck(prf, Opts(fx.extng, FALSE), fx) IN
